@@ -396,6 +396,20 @@ def templates(w):
         yield 'const-twins', Op('==', t1, t2)
         yield 'const-twins', Op('^', ex.ExprCond(x, I(c1), y), ex.ExprCond(x, I(c2), y))
         yield 'const-twins', Op('^', Op('^', x, I(c1)), Op('^', y, I(c2)))
+    # 7h a register and an assembler symbol of the same name and width are different identifiers (is_reg): the x op x rules
+    # must not fire across them
+    xr, xs = ex.ExprId('r%dx' % w, w, is_reg=True), ex.ExprId('r%dx' % w, w)
+    for outer in ('^', '-', '|', '&', '+'):
+        yield 'reg-symbol-twins', Op(outer, xr, xs)
+        yield 'reg-symbol-twins', Op(outer, xs, xr)
+        yield 'reg-symbol-twins', Op(outer, Op('+', xr, I(4 & irsem.mask(w))), xs)
+    yield 'reg-symbol-twins', Op('+', xr, Op('-', xs))
+    yield 'reg-symbol-twins', Op('==', xr, xs)
+    yield 'reg-symbol-twins', ex.ExprCond(Op('^', xr, xs), y, z)
+    if w == 32:
+        yield 'reg-symbol-twins', Op('^', ex.ExprMem(xr, 8), ex.ExprMem(xs, 8))
+        yield 'reg-symbol-twins', ex.ExprCompose([(ex.ExprSlice(xr, 0, 8), 0, 8), (ex.ExprSlice(xs, 8, 16), 8, 16)])
+        yield 'reg-symbol-twins', ex.ExprCompose([(ex.ExprSlice(xr, 0, 16), 0, 16), (ex.ExprSlice(xs, 16, 32), 16, 32)])
     # 7g mask-then-shift and shift-then-mask with every small mask and count (rules that compare the mask with a power of two
     # of the count have exactly one or two pairs on which a slip shows)
     if w in (8, 32):
